@@ -100,9 +100,11 @@ func vxAssertBitboards(p *Position, n *VxState, pre string) {
 	vxAssert(p.kingSquare[White] == n.VxKingSq(White) && p.kingSquare[Black] == n.VxKingSq(Black), pre+".king-squares==recomputed")
 }
 
-func VN_C04_domove_preserves() int { return 4 * 4096 }
+func VN_C04_domove_preserves() int { return vxNumFeasible() }
 func VQ_C04_domove_preserves() int { return 192 }
-func VH_C04_domove_preserves(k int) {
+func VF_C04_domove_preserves() int { return vxNumSpecial() }
+func VH_C04_domove_preserves(i int) {
+	k := vxNthFeasible(i)
 	m := vxMoveSqRaw(k)
 	p, s := VxSymPosFreeL("", nil)
 	vxAssume(s.VxSpecPseudoLegal(m))
